@@ -93,6 +93,15 @@ def handle (s : Sexp) : D String :=
         | s => dfail "theory atom" s
       if roots.any Option.isNone then pure "ERR create" else
       pure (showEqns h (roots.filterMap id))
+  | .list [.atom "ground", h, rs] => do
+      let h ← decNat h
+      let P ← decList decRule rs
+      pure (" ".intercalate ((G P h).map GRule.toAsp))
+  | .list [.atom "parts", rs] => do
+      let P ← decList decRule rs
+      let ps := (partsOf P).map fun p => s!"({p.root} {p.name} ({" ".intercalate (p.range.map toString)}))"
+      let fs := (futureHeads P).map fun (a, n) => s!"({Sexp.quote a} {n})"
+      pure ("((" ++ " ".intercalate ps ++ ") (" ++ " ".intercalate fs ++ "))")
   | s => .error s!"unknown command: {s.toStr}"
 
 partial def loop (inp : IO.FS.Stream) (out : IO.FS.Stream) : IO Unit := do
